@@ -340,7 +340,7 @@ def _scram_parts(h):
         return None
 
 
-def allowed_to_verify(name, seedhash, label, mutant):
+def allowed_to_verify(name, seedhash, label, mutant, lib=False):
     """True when `mutant` is a documented (or value-preserving) re-encoding of the same digest bits and settings.
     Decided from the two strings alone -- never from the parser under test."""
     b = HS.base_name(name)
@@ -373,8 +373,10 @@ def allowed_to_verify(name, seedhash, label, mutant):
     if b in ("sha256_crypt", "sha512_crypt"):
         if mutant.replace("rounds=5000$", "", 1) == seedhash or seedhash.replace("rounds=5000$", "", 1) == mutant:
             return True
-    # R1: decorated integers denoting the same number ('+1', ' 1', '01') in a numeric field
-    if _numeric_canon(mutant) == _numeric_canon(seedhash):
+    # R1: decorated integers denoting the same number ('+1', ' 1', '01') in a numeric field -- for the classic
+    # hashers only (their parsers read the field with int(); see DESIGN 10.2).  The libpass hashers render and parse
+    # one spelling of every number: there a re-spelled field is an altered string
+    if not lib and _numeric_canon(mutant) == _numeric_canon(seedhash):
         return True
     # R7: a parameter of a 'k=v,k=v' list repeated with the identical value denotes the same settings
     if label.startswith("dupfield,"):
@@ -499,7 +501,7 @@ def probe_libpass(name, H, seedhash, label, mutant, form, mode):
             continue
         if not isinstance(r, bool):
             out.append((pre + f"{op}_nonbool:{kind}", f"{op}({arg!r}) returned {r!r}"))
-        if op == "verify" and r and (isinstance(mutant, bytes) or not allowed_to_verify(LIBPASS_BASE[name], seedhash, label, mutant)):
+        if op == "verify" and r and (isinstance(mutant, bytes) or not allowed_to_verify(LIBPASS_BASE[name], seedhash, label, mutant, lib=True)):
             out.append((pre + f"altered_verifies:{kind}", f"libpass {type(H).__name__}.verify({arg!r}, {PW!r}) is True although the stored hash {seedhash!r} was altered [{label}]"))
     return out
 
